@@ -474,13 +474,9 @@ func (s *Sem) boolFacts(fn *ssa.Function, truth bool, depth int) []Atom {
 	}
 	s.trueCache[key] = nil
 	var sets [][]Atom
-	eachInstr(fn, func(in ssa.Instruction) {
-		r, ok := in.(*ssa.Return)
-		if !ok || len(r.Results) != 1 {
-			return
-		}
-		sets = append(sets, s.boolSets(r.Results[0], r.Block(), truth, depth)...)
-	})
+	for _, rl := range returnLeaves(fn, 0) {
+		sets = append(sets, s.boolSets(rl.v, rl.b, truth, depth)...)
+	}
 	res := intersectAtoms(sets)
 	s.trueCache[key] = res
 	return res
